@@ -174,7 +174,7 @@ SCHEDULES = [
 
 
 def run_c04(rep, tier, seed):
-    root = os.path.join(WORK, "run-C04")
+    root = os.path.join(RUNS, "run-C04")
     nv = 0
 
     def viol(kind, what, detail):
@@ -325,7 +325,7 @@ RUNNERS = {"C04": run_c04}
 def run_c17(rep, tier, seed):
     from p_crash import calls_of
     rng = random.Random(seed * 1000 + 17)
-    root = os.path.join(WORK, "run-C17")
+    root = os.path.join(RUNS, "run-C17")
     nv = 0
     BG = "bitcask-background-tasks"
     scenarios = []
@@ -471,9 +471,9 @@ def strip(a):
 # C18: background merge and sync follow the configured policy
 
 def run_c18(rep, tier, seed):
-    config_stage(rep, random.Random(seed * 77 + 1), 40 if tier == "quick" else 400, os.path.join(WORK, "run-cfg-" + "run_c18"))
+    config_stage(rep, random.Random(seed * 77 + 1), 40 if tier == "quick" else 400, os.path.join(RUNS, "run-cfg-" + "run_c18"))
     rng = random.Random(seed * 1000 + 18)
-    root = os.path.join(WORK, "run-C18")
+    root = os.path.join(RUNS, "run-C18")
     nv = 0
     SLACK = 4000     # ms of scheduling slack granted on top of interval*(1+jitter) for positive expectations
     import datetime
